@@ -221,13 +221,14 @@ Proof.
 Qed.
 
 Lemma dec_length n : (length (dec n) <= 40)%nat.
-Proof. unfold dec. pose proof (dec_fuel_length 40 n []). simpl in *. lia. Qed.
+Proof. unfold dec. pose proof (dec_fuel_length 40 n []) as H. cbn [length] in H. lia. Qed.
 
 (* ---- name_change ------------------------------------------------------------------------------------------- *)
 
 Ltac norm_app := repeat (rewrite <- app_assoc); cbn [app]; repeat (rewrite <- app_assoc); cbn [app]; reflexivity.
 
 Definition SUFFIX2 : bytes := [C_SP; C_LP; 50; C_RP].      (* " (2)" *)
+Definition HSUFFIX2 : bytes := [C_HY; 50].                 (* "-2" *)
 
 (* a first label without " (" gets " (2)" appended *)
 Lemma name_change_fresh x rest :
@@ -276,7 +277,7 @@ Proof.
   assert (digits_val ds + 1 <=? 4294967295 = true) as -> by (apply N.leb_le; lia).
   rewrite label_with_suffix_fits.
   - norm_app.
-  - pose proof (dec_length (digits_val ds + 1)). rewrite !app_length. simpl. lia.
+  - pose proof (dec_length (digits_val ds + 1)). rewrite !app_length. cbn [length]. lia.
 Qed.
 
 (* at 4294967295 the number cannot grow: ' (2)' is appended instead (no overflow) *)
@@ -343,7 +344,7 @@ Proof.
   assert (digits_val ds + 1 <=? 4294967295 = true) as -> by (apply N.leb_le; lia).
   rewrite label_with_suffix_fits.
   - norm_app.
-  - pose proof (dec_length (digits_val ds + 1)). rewrite !app_length. simpl. lia.
+  - pose proof (dec_length (digits_val ds + 1)). rewrite !app_length. cbn [length]. lia.
 Qed.
 
 Lemma hostname_change_at_max x ds rest :
@@ -379,27 +380,29 @@ Lemma name_change_fits s :
   exists nf, name_change s = nf ++ snd (split_first_label s) /\ (length nf <= 63)%nat.
 Proof.
   unfold name_change. destruct (split_first_label s) as [first rest]. simpl.
-  assert (D : (length (label_with_suffix first [C_SP; C_LP; 50; C_RP]) <= 63)%nat)
-    by (apply label_with_suffix_len; simpl; lia).
+  assert (D : (length (label_with_suffix first SUFFIX2) <= 63)%nat)
+    by (apply label_with_suffix_len; unfold SUFFIX2; cbn [length]; lia).
+  unfold SUFFIX2 in D.
   destruct (rsplit2 C_SP C_LP first) as [[base q]|]; [|eexists; split; [reflexivity|exact D]].
   destruct (find1 C_RP q) as [[num [|a t]]|]; try (eexists; split; [reflexivity|exact D]).
   destruct (parse_u32 num) as [n|]; [|eexists; split; [reflexivity|exact D]].
   destruct (name_suffix_can_increment n); [|eexists; split; [reflexivity|exact D]].
   eexists. split; [reflexivity|]. apply label_with_suffix_len.
-  pose proof (dec_length (n + name_suffix_step)). rewrite !app_length. simpl. lia.
+  pose proof (dec_length (n + name_suffix_step)). cbn [app length]. rewrite app_length. cbn [length]. lia.
 Qed.
 
 Lemma hostname_change_fits s :
   exists nf, hostname_change s = nf ++ snd (split_first_label s) /\ (length nf <= 63)%nat.
 Proof.
   unfold hostname_change. destruct (split_first_label s) as [first rest]. simpl.
-  assert (D : (length (label_with_suffix first [C_HY; 50]) <= 63)%nat)
-    by (apply label_with_suffix_len; simpl; lia).
+  assert (D : (length (label_with_suffix first HSUFFIX2) <= 63)%nat)
+    by (apply label_with_suffix_len; unfold HSUFFIX2; cbn [length]; lia).
+  unfold HSUFFIX2 in D.
   destruct (rsplit1 C_HY first) as [[base num]|]; [|eexists; split; [reflexivity|exact D]].
   destruct (parse_u32 num) as [n|]; [|eexists; split; [reflexivity|exact D]].
   destruct (host_suffix_can_increment n); [|eexists; split; [reflexivity|exact D]].
   eexists. split; [reflexivity|]. apply label_with_suffix_len.
-  pose proof (dec_length (n + host_suffix_step)). rewrite app_length. simpl. lia.
+  pose proof (dec_length (n + host_suffix_step)). cbn [app length]. lia.
 Qed.
 
 Lemma rename_fits_both s :
